@@ -59,9 +59,29 @@ func genThemedLibJob(r *Rand, k int, allowLoad bool, theme string) LibJob {
 		j := LibJob{ErrAt: -1}
 		j.API = Pick(r, []string{"stream", "stream", "stream", "all", "string", "stringall", "parse"})
 		j.InFmt = Pick(r, []string{"yaml", "yaml", "yaml", "json"})
-		j.OutFmt = Pick(r, []string{"yaml", "yaml", "json0", "props"})
-		fs := GenMultiFiles(r.Fork("in"), MultiOpts{MaxFiles: 1, MaxDocs: 3, Format: j.InFmt, PlainOnly: true})
+		j.OutFmt = Pick(r, []string{"yaml", "yaml", "json0", "props", "xml"})
+		fs := GenMultiFiles(r.Fork("in"), MultiOpts{MaxFiles: 1, MaxDocs: 3, Format: j.InFmt, PlainOnly: r.Chance(1, 2)})
 		j.Input = Bytes(fs[0].Bytes())
+		if theme == "snippet" {
+			// scalars whose type has to be guessed again while evaluating: custom tags, CSV cells, dates
+			switch r.Intn(3) {
+			case 0:
+				j.InFmt = "yaml"
+				j.Input = Bytes(fmt.Sprintf("id: %s\na: !mytag %d\nb: !mytag %d\nl: [!t 3, !t 1, !t 2]\nt: 2021-01-0%dT10:00:00Z\n", DocID(r, k, 0), r.Range(1, 9), r.Range(1, 9), r.Range(1, 9)))
+			case 1:
+				j.InFmt = Pick(r, []string{"csv", "tsv"})
+				sep := ","
+				if j.InFmt == "tsv" {
+					sep = "\t"
+				}
+				j.Input = Bytes(GenCSV(r.Fork("csv"), DocID(r, k, 0), sep))
+				j.Expr = Pick(r, []string{".", ".[0]", "map(.a)", ".[] | .a", "sort_by(.a)", "length"})
+				return j
+			default:
+				j.InFmt = "yaml"
+				j.Input = Bytes(fmt.Sprintf("id: %s\na: !mytag %d\nb: !mytag %d\nl: [!t 3, !t 1, !t 2]\nt: 2021-01-0%dT10:00:00Z\n", DocID(r, k, 0), r.Range(1, 9), r.Range(1, 9), r.Range(1, 9)))
+			}
+		}
 		j.DecSlot, j.EncSlot = r.Intn(2), r.Intn(2)
 		j.Expr = Pick(r, ExprThemes[theme])
 		if (j.API == "stream" || j.API == "all") && r.Chance(1, 3) {
@@ -72,7 +92,7 @@ func genThemedLibJob(r *Rand, k int, allowLoad bool, theme string) LibJob {
 	j := LibJob{ErrAt: -1}
 	j.API = Pick(r, []string{"stream", "stream", "stream", "stream", "all", "all", "string", "stringall", "stream"})
 	j.InFmt = Pick(r, []string{"yaml", "yaml", "yaml", "yaml", "yaml", "json", "json", "props", "csv", "xml", "toml", "lua"})
-	j.OutFmt = Pick(r, []string{"yaml", "yaml", "yaml", "json", "json0", "json0", "props"})
+	j.OutFmt = Pick(r, []string{"yaml", "yaml", "yaml", "json", "json0", "json0", "props", "xml", "xml"})
 	j.Input = Bytes(genLibInput(r.Fork("in"), j.InFmt, k))
 	j.DecSlot = r.Intn(2)
 	j.EncSlot = r.Intn(2)
